@@ -31,6 +31,7 @@ Decides:
  H group push      push_with_group hands every stashed hint back whether or not the group has a (non-blank) title; E prefix table: the text in front of a
                    value completed inside `-o=..` / `--opt=..` has one dash for a short and two for a long name; E matcher: short names match exactly,
                    long / command names by prefix OF THE NAME.
+ E write-only      the push_* helpers never read the hints collected so far; P usage fallback answers only a line that was empty before parsing (shared with C10).
 Does not decide: the candidate set for a given prefix (depth / prefix filtering is value-level)."""
 import re
 from core import *
